@@ -687,7 +687,12 @@ func c43call(r *vrun.Run, w *c43world, c c43case, subject any, kind, env string,
 				return
 			}
 			if n > 1 {
-				fail(fmt.Sprintf("%s: hook invoked more than once per call (%s)", kind, env), "method %s: layer %s invoked %d times\nobserved chain: %s\nexpected chain: %s", c.Method, who, n, c43evList(events), c43evList(want))
+				sig := fmt.Sprintf("%s.%s: hook invoked more than once per call", kind, c.Method)
+				if c.Shared {
+					// one cause, many paths/methods: collapse
+					sig = "client from a repeated Nodes() call: hook invoked more than once per call (" + env + ")"
+				}
+				fail(sig, "path %s method %s: layer %s invoked %d times\nobserved chain: %s\nexpected chain: %s", kind, c.Method, who, n, c43evList(events), c43evList(want))
 				r.Outcome("hook-twice")
 				return
 			}
@@ -816,7 +821,7 @@ func c43call(r *vrun.Run, w *c43world, c c43case, subject any, kind, env string,
 
 // c43findDed digs the fake dedicated client out of the wrappers (white-box: dedicated.client.DedicatedClient).
 func c43findDed(subject any) *c43ded {
-	for i := 0; i < 8; i++ {
+	for i := 0; i < 256; i++ {
 		switch v := subject.(type) {
 		case *c43ded:
 			return v
